@@ -266,7 +266,7 @@ def run_impl(prop_module, cases, scratch, extra_env=None, timeout_per_chunk=600,
 
     def launch(idxs):
         p = subprocess.Popen([PY, worker, prop_module], stdin=subprocess.PIPE, stdout=subprocess.PIPE,
-                             stderr=subprocess.PIPE, env=env, text=True)
+                             stderr=subprocess.PIPE, env=env, text=True, start_new_session=True)
         return p
 
     import threading
@@ -284,15 +284,28 @@ def run_impl(prop_module, cases, scratch, extra_env=None, timeout_per_chunk=600,
                 try:
                     out, err = p.communicate(data, timeout=timeout_per_chunk)
                 except subprocess.TimeoutExpired:
-                    p.kill()
-                    out, err = p.communicate()
+                    import signal
+                    try:
+                        os.killpg(p.pid, signal.SIGKILL)      # the worker and anything it spawned (symbolizer, pool)
+                    except OSError:
+                        p.kill()
+                    try:
+                        out, err = p.communicate(timeout=10)
+                    except subprocess.TimeoutExpired:
+                        out, err = "", ""
                     err = (err or "") + "\nTIMEOUT"
                 lines = [l for l in out.split("\n") if l.startswith("@R ")]
                 for k, l in enumerate(lines):
                     results[idxs[k]] = json.loads(l[3:])
                 done = len(lines)
                 if done < len(idxs):
-                    results[idxs[done]] = {"crash": p.returncode, "stderr": (err or "")[-400:]}
+                    e = err or ""
+                    k = e.find("ERROR: AddressSanitizer")
+                    if k < 0:
+                        k = e.find("runtime error:")
+                        k = max(0, e.rfind("\n", 0, k)) if k >= 0 else -1
+                    rep = e[k:k + 700] if k >= 0 else e[-400:]
+                    results[idxs[done]] = {"crash": p.returncode, "stderr": rep}
                     idxs = idxs[done + 1:]
                 else:
                     idxs = []
